@@ -488,6 +488,21 @@ class NAHooks(Hooks):
                     raise _np_err(e)
                 return NA(res, v.dt)
             return shp
+        if name in ('argmax', 'argmin'):
+            def arg(v, axis=None, **k):
+                v = na_of(v)
+                vals = []
+                for x in v.a.ravel():
+                    r = to_rat(x)
+                    if not r.is_const():
+                        raise Undecided('np.%s of symbolic values' % name)
+                    vals.append(r.constant())
+                arr = _np.array([float(x) for x in vals]).reshape(v.a.shape)
+                res = getattr(_np, name)(arr, axis=axis)
+                if isinstance(res, _np.ndarray):
+                    return NA(objarr(res.tolist()), DT('int64'))
+                return int(res)
+            return arg
         if name == 'diff':
             def diff(v, n=1, axis=-1, **k):
                 v = na_of(v)
